@@ -165,27 +165,38 @@ Proof. exact expand_nonvacuous. Qed.
 Print Assumptions C17_expand_nonvacuous.
 
 (* ------------------------------------------------ type map and reserved-name renaming (C17/TypeMap.v) *)
-From PV Require Import C17.TypeMap C17.TypeMapProofs.
+From PV Require Import C17.TypeMap C17.TypeMapProofs C17.TypeMapTotal.
+
+(* the unique-name search terminates with a fresh name (pigeonhole over base_1 .. base_1000, whose decimal
+   suffixes are pairwise distinct): no "build succeeds" hypothesis below, only a size bound
+   (968 = fuel 1000 of the model - 32 reserved keywords) *)
+Theorem C17_unique_name_terminates : forall used base, (List.length used < 1000)%nat ->
+  exists u, new_name used base = Some u /\ ~ In u used.
+Proof. exact unique_name_terminates_. Qed.
+Print Assumptions C17_unique_name_terminates.
 
 (* every name occurring in the translation (any operand position, inside intrinsic / array arguments, nested)
    is bound by the type map built from the expression *)
-Theorem C17_type_map_total : forall fixed e tm, build [e] = Some tm ->
-  forall x, In x (snames (tr fixed e)) -> has_fname tm x = true.
-Proof. exact type_map_total_. Qed.
+Theorem C17_type_map_total : forall fixed e, (List.length (occs e) < 968)%nat ->
+  exists tm, build [e] = Some tm /\ forall x, In x (snames (tr fixed e)) -> has_fname tm x = true.
+Proof. exact type_map_total_u. Qed.
 Print Assumptions C17_type_map_total.
 
 (* distinct Fortran names (reserved or not) get distinct names in the text and distinct sympy objects *)
-Theorem C17_type_map_injective : forall es tm, build es = Some tm ->
+Theorem C17_type_map_injective : forall es, (List.length (flat_map occs es) < 968)%nat ->
+  exists tm, build es = Some tm /\
   forall e1 e2, In e1 tm -> In e2 tm -> fname e1 <> fname e2 ->
   uname e1 <> uname e2 /\ (ekind e1, sname e1) <> (ekind e2, sname e2).
-Proof. exact type_map_injective_. Qed.
+Proof. exact type_map_injective_u. Qed.
 Print Assumptions C17_type_map_injective.
 
 (* tr_exact composed with the renaming: the sympy object built under the type map, evaluated under the renamed
    valuation, has the Fortran value on the fragment *)
-Theorem C17_renaming_preserves_value : forall fixed e tm, in_frag fixed e = true -> build [e] = Some tm ->
+Theorem C17_renaming_preserves_value : forall fixed e, in_frag fixed e = true ->
+  (List.length (occs e) < 968)%nat ->
+  exists tm, build [e] = Some tm /\
   forall E, oeq (seval (renv tm (qenv_of E)) (obj tm (tr fixed e))) (option_map inject_Z (feval E e)).
-Proof. exact renaming_preserves_value_. Qed.
+Proof. exact renaming_preserves_value_u. Qed.
 Print Assumptions C17_renaming_preserves_value.
 
 Example C17_type_map_nonvacuous :
